@@ -315,7 +315,7 @@ func propC08(c *Ctx) {
 			}
 		})
 		var doneT []Edge
-		allInstrs(get, func(in ssa.Instruction) {
+		reg.AllInstrs(func(in ssa.Instruction) {
 			if u, ok := in.(*ssa.UnOp); ok && u.Op == token.MUL {
 				if ff, _ := fieldOf(u.X); fDone != nil && ff == fDone {
 					a, _ := boolEdges(u)
@@ -327,18 +327,24 @@ func propC08(c *Ctx) {
 		// true or through the store that sets it (after a successful fetch)
 		cuts := newCuts().addEdges(doneT)
 		for _, st := range doneStores {
+			cuts.addInstr(st) // for returns in the store's own function
 			if l := reg.Lift(st); l != nil && passesOnSuccess(reg, st) {
-				cuts.addInstr(l)
+				for _, at := range reg.chain(st) {
+					if at != st {
+						cuts.addInstr(at) // the calls of the helpers it lives in
+					}
+				}
 			}
 		}
 		n := 0
-		for _, r := range returnsOf(get) {
-			vals := returnValues(r)
+		for _, rv := range reg.SuccessReturns() {
+			r, vals := rv.Ret, rv.Vals
 			if !isLoadOfField(vals[0], fD) {
 				continue
 			}
 			n++
-			bypass, _ := reach(entrySite(get), isInstr(r), cuts)
+			rfn := r.Parent()
+			bypass, _ := reach(entrySite(rfn), isInstr(r), cuts)
 			c.Check("R8.3", fmt.Sprintf("cache.get/cached-return#%d", n), instrPos(r), !bypass && inc != nil && reg.Dominates(inc, r),
 				"a segment's blocks are returned only when it is done (or was just filled), and the read is counted first")
 		}
@@ -375,6 +381,39 @@ func propC08(c *Ctx) {
 			}
 			if !del {
 				okDel = false
+			}
+		}
+		if !okDel {
+			// the same with the standard library: maps.DeleteFunc(c.segments, func(k, v) bool { return v.nreads >= c.maxreads })
+			fSegs := w.Field("jrpc2", "cache", "segments")
+			for _, ci := range callsIn(prune) {
+				call, ok := ci.(*ssa.Call)
+				if !ok || calleeName(call) != "maps.DeleteFunc" || len(call.Call.Args) != 2 || !isLoadOfField(stripConv(call.Call.Args[0]), fSegs) {
+					continue
+				}
+				var pred *ssa.Function
+				switch p := stripConv(call.Call.Args[1]).(type) {
+				case *ssa.MakeClosure:
+					pred = p.Fn.(*ssa.Function)
+				case *ssa.Function:
+					pred = p
+				}
+				if pred == nil {
+					continue
+				}
+				good, nRet := true, 0
+				for _, r := range returnsOf(pred) {
+					for _, lf := range phiLeaves(returnValues(r)[0]) {
+						nRet++
+						b, isB := lf.Val.(*ssa.BinOp)
+						if !isB || b.Op != token.GEQ || !isLoadOfField(b.X, fSegReads) || !(isLoadOfField(b.Y, fCMax) || fieldIsLoadThroughFreeVar(b.Y, fCMax)) {
+							good = false
+						}
+					}
+				}
+				if good && nRet > 0 {
+					okDel = true
+				}
 			}
 		}
 		c.Check("R8.3", "cache.pruneMaxRead/evicts-at-budget", prune.Pos(), okDel, "a segment with nreads >= maxreads is deleted from the map")
@@ -451,4 +490,10 @@ func sliceAliases(v ssa.Value, isRoot func(ssa.Value) bool, d int) bool {
 		}
 	}
 	return false
+}
+
+// fieldIsLoadThroughFreeVar: v loads field f of an object a function literal captured.
+func fieldIsLoadThroughFreeVar(v ssa.Value, f *types.Var) bool {
+	lf, _ := loadedField(stripConv(v))
+	return lf == f
 }
